@@ -1,0 +1,5 @@
+//go:build !verif
+
+package concurrent
+
+func vhook(ev string, args ...any) {}
